@@ -2,16 +2,23 @@
 from .. import terms as T
 from ..lib import summarise, cond_str, normal, raising
 from ..symex import Valuation, Undecided, default_policy
-from ..vbm import dirty_raises, PROTECTED
+from ..vbm import dirty_raises, PROTECTED, raise_signature
 from ..terms import fmt
 
-# Refusal sites that are outside the property's list, one reason each (DESIGN C15 "Out of scope with reason").
-OUT_OF_SCOPE = {
-    ('SimulatedBroker._execute_order', 'ValueError'): 'no quote for the asset: C04/C05 quantify over assets that have a quote at the fill time',
-    ('Position.transact', 'ValueError'): 'asset mismatch: unreachable through PositionHandler.transact_position, which looks the position up by the transaction asset',
-    ('SimulatedBroker._set_fee_model', 'TypeError'): 'constructor argument of the wrong type: no broker state exists yet',
-    ('AssetPriceBuffers.append', 'ValueError'): 'signal buffers are not broker or portfolio state',
-}
+# Refusal sites that are outside the property's list, one reason each (DESIGN C15 "Out of scope with reason").  A site is identified by
+# (owning class, exception class, names compared by its guard) - never by line number or helper name.
+def out_of_scope(sig):
+    owner, exc, leaves = sig
+    if owner == 'SimulatedBroker' and exc == 'ValueError' and 'nan' in leaves:
+        return 'no quote for the asset: C04/C05 quantify over assets that have a quote at the fill time'
+    if owner == 'Position' and exc == 'ValueError' and 'asset' in leaves and 'current_dt' not in leaves and not any(x.startswith('const:') for x in leaves):
+        return 'asset mismatch: unreachable through PositionHandler.transact_position, which looks the position up by the transaction asset'
+    if owner == 'SimulatedBroker' and exc == 'TypeError':
+        return 'constructor argument of the wrong type: no broker state exists yet'
+    if owner == 'AssetPriceBuffers':
+        return 'signal buffers are not broker or portfolio state'
+    return None
+
 
 # S2: invalid request classes, by entry: (name, valuation, expected exception).  The orderings range over the operands the
 # guards compare; every path the valuation admits must end in the tabled refusal.
@@ -94,16 +101,17 @@ def check(ctx):
                 continue
             first = r['writes'][0]
             kinds = sorted({PROTECTED.get(w[0].split(' ')[0], w[0]) for w in r['writes']})
-            why = OUT_OF_SCOPE.get((r['fn'], r['exc']))
+            sig = raise_signature(ctx.M, ('raise', r['exc'], r['site'], r['fn']))
+            why = out_of_scope(sig)
             detail = 'protected writes that may precede the refusal: ' + '; '.join('%s via %s at %s in %s' % w for w in r['writes'][:6])
             if why:
                 ctx.note('C15 out of scope: %s - %s (%s)' % (inst, why, '; '.join(kinds)))
                 continue
-            key = 'C15.S1|%s|%s:%s|%s/%s|%s' % (e, r['fn'], r['exc'], first[0], first[1].split(' ')[0], '+'.join(kinds))
+            key = 'C15.S1|%s|%s:%s:%s|%s/%s|%s' % (e, sig[0], sig[1], ','.join(sig[2]), first[0], first[1].split(' ')[0], '+'.join(kinds))
             ctx.violation('C15.S1', inst, r['site'], detail + ' -- a refused request must leave every %s unchanged' % ', '.join(kinds), key=key)
         ctx.sample({'rule': 'C15.S1', 'entry': e, 'paths': npaths, 'raise_paths': nraise, 'refusal_sites': len(reps), 'clean': clean})
     ctx.floor('C15.S1', 'refusing paths analysed', total_raise, 30)
-    s2_tables(ctx)
+    ctx.sub(s2_tables)
 
 
 def s2_tables(ctx):
